@@ -943,6 +943,10 @@ func (g *G) Program() []*sx.N {
 		case 2:
 			forms = append(forms, g.setGlobal())
 		default:
+			if g.chance(120) {
+				forms = append(forms, g.probe("t", g.hofRest()))
+				continue
+			}
 			forms = append(forms, g.probe("t", g.expr(Ty(g.R.Intn(int(TMap)+1)), g.P.MaxDepth)))
 		}
 	}
@@ -1074,3 +1078,84 @@ func (g *G) argsN(n int) []*sx.N {
 	}
 	return xs
 }
+
+// ArgPool is the literal pool for builtin sweeps: every value class the core
+// builtins distinguish, with boundary members.
+func (g *G) ArgLiteral() (*sx.N, string) {
+	switch g.R.Intn(16) {
+	case 0:
+		return sx.I(fw.Pick(g.R, boundaryInts)), "int"
+	case 1:
+		return sx.I(int64(g.R.Range(-3, 6))), "int"
+	case 2:
+		return sx.F(fw.Pick(g.R, boundaryFloats)), "float"
+	case 3:
+		return sx.S(fw.Pick(g.R, strPool)), "string"
+	case 4:
+		return sx.QY(fw.Pick(g.R, []string{"list", "vector", "string", "a", "foo", "bytes"})), "symbol"
+	case 5:
+		return sx.Y(":" + fw.Pick(g.R, keyPool)), "keyword"
+	case 6:
+		return sx.Nil(), "nil"
+	case 7:
+		return sx.Y(fw.Pick(g.R, []string{"true", "false"})), "bool"
+	case 8:
+		return g.listIntLit(), "list"
+	case 9:
+		return sx.Q(sx.L(sx.L(sx.I(1), sx.I(2)), sx.Y("a"), sx.S("s"), sx.L())), "nested-list"
+	case 10:
+		return sx.Call("vector", sx.I(int64(g.R.Intn(5))), sx.I(2), sx.I(int64(g.R.Range(-4, 4)))), "vector"
+	case 11:
+		return sx.Call("vector"), "empty-vector"
+	case 12:
+		return g.mapLit(), "map"
+	case 13:
+		return sx.Call("lambda", sx.L(sx.Y("x")), sx.Call("verif:probe", sx.QY("cb"), sx.Y("x"))), "lambda1"
+	case 14:
+		return sx.Call("lambda", sx.L(sx.Y("x"), sx.Y("y")), sx.Call("verif:probe", sx.QY("cb2"), sx.Call("list", sx.Y("x"), sx.Y("y")))), "lambda2"
+	default:
+		return sx.Y(fw.Pick(g.R, []string{"+", "car", "list", "not", "<"})), "builtin"
+	}
+}
+
+// hofRest: a higher-order builtin calls a user function that receives its
+// arguments through &rest / &optional and lets the parameter list ESCAPE the
+// call (returned, captured by a closure, accumulated): every call must get an
+// argument list of its own.
+func (g *G) hofRest() *sx.N {
+	g.feat("hof-rest-escape")
+	seq := func() *sx.N { return g.expr(fw.Pick(g.R, []Ty{TListInt, TVecInt}), 2) }
+	var cb *sx.N
+	switch g.R.Intn(4) {
+	case 0:
+		cb = sx.Call("lambda", sx.L(sx.Y("&rest"), sx.Y("xs")), sx.Y("xs"))
+	case 1:
+		cb = sx.Call("lambda", sx.L(sx.Y("&rest"), sx.Y("xs")), sx.Call("lambda", sx.L(), sx.Y("xs")))
+	case 2:
+		cb = sx.Call("lambda", sx.L(sx.Y("a"), sx.Y("&rest"), sx.Y("xs")), sx.Call("cons", sx.Y("a"), sx.Y("xs")))
+	default:
+		cb = sx.Call("lambda", sx.L(sx.Y("&optional"), sx.Y("a"), sx.Y("b")), sx.Call("list", sx.Y("a"), sx.Y("b")))
+	}
+	var call *sx.N
+	switch g.R.Intn(6) {
+	case 0:
+		call = sx.Call("map", sx.QY(fw.Pick(g.R, []string{"list", "vector"})), cb, seq())
+	case 1:
+		call = sx.Call("foldl", cb, sx.I(0), seq())
+	case 2:
+		call = sx.Call("foldr", cb, sx.I(0), seq())
+	case 3:
+		call = sx.Call("apply", cb, sx.I(1), seq2list(seq()))
+	case 4:
+		call = sx.Call("list", sx.Call("funcall", cb, sx.I(1), sx.I(2)), sx.Call("funcall", cb, sx.I(3), sx.I(4)))
+	default:
+		call = sx.Call("select", sx.QY("list"), cb, seq())
+	}
+	// force the escaped lists/closures after ALL calls were made
+	return sx.Call("let", sx.L(sx.L(sx.Y("res"), call)),
+		sx.Call("list", sx.Y("res"), sx.Call("if", sx.Call("list?", sx.Y("res")),
+			sx.Call("map", sx.QY("list"), sx.Call("lambda", sx.L(sx.Y("r")), sx.Call("if", sx.Call("equal?", sx.Call("type", sx.Y("r")), sx.QY("function")), sx.Call("funcall", sx.Y("r")), sx.Y("r"))), sx.Y("res")),
+			sx.Nil())))
+}
+
+func seq2list(s *sx.N) *sx.N { return sx.Call("concat", sx.QY("list"), s) }
